@@ -283,8 +283,10 @@ example : ∀ σ ρ : ℝ, 0 ≤ σ → 0 ≤ ρ →
 /-- the hypotheses of `C01_net_of_gap_svd` / `C01_net_of_gap_all` in the shape `LocalNetwork` needs them
     (`P = m0²·Pc`) are satisfiable together: the matrices of `pCV` with `m0 = 1`, `Pc = PCV`.  The
     structural hypotheses (`hdim`, `RowsOK`, `m0 ≠ 0`, `Σ·Pc = 1`, `minx.Nodup`) are those of
-    `C01_net_svd_decompose`, witnessed by `Ex.npQ` in `Props/C01/NetFacade.lean` over ℚ (an evaluated
-    `NetProblem ℝ` is NOT given: `Cov.activeCovOf` does not reduce over ℝ) -/
+    `C01_net_svd_decompose`, witnessed by `Ex.npQ` in `Props/C01/NetFacade.lean` over ℚ; on an evaluated
+    `NetProblem ℝ` (`Ex.npV`, `Lemmas/Ls/NetFacadeRealSvd.lean`) the hypothesis is PROVED in this shape and
+    `C01_net_of_gap_svd` applied through `C01_net_of_inputgap`: `Props/C01/InputGap.lean`
+    (`C01_net_singgap_witness`) -/
 example : SingGap pCV.A (((1 : ℝ) * 1) • PCV) (1 / 2 : ℝ) := by
   rw [mul_one, one_smul]
   exact pCV_singGap (by norm_num)
